@@ -143,12 +143,13 @@ func vsOpenWorld(c *sim.Case, res *sim.Result, wrap func(redisBackend) redisBack
 	}
 	// The only two deviations from main.go's options: size knobs that none of
 	// the gateway's command paths reads; they keep a run cheap.
-	w.opt.MemTableSize = c.CfgInt("memtable_size", 1<<20)          // main.go: 64 MiB
+	w.opt.MemTableSize = c.CfgInt("memtable_size", 1<<20)           // main.go: 64 MiB
 	w.opt.ValueLogFileSize = int(c.CfgInt("vlog_file_size", 1<<20)) // main.go: 0 = 20 preallocated 512 MiB mmap files
 	verifhook.Reset()
 	// The compactor start delay is the only math/rand consumer in a run this
 	// small; background compaction has nothing to do with <= a few hundred writes.
 	verifhook.Set("lsm.no-background-compaction", 1)
+	verifhook.Set("lsm.serial-table-build", 1)
 	defer func() {
 		if r := recover(); r != nil {
 			err = fmt.Errorf("NoKV.Open panicked: %v", r)
